@@ -102,7 +102,11 @@ Keep5 == UNCHANGED <<pending, accepted, items, frames, failed, done, hcalls>>
 WriteAfterClose == ws \in {"closed", "error"} /\ ws' = "error" /\ Keep5
 CloseAgain      == ws = "closed" /\ UNCHANGED wvars
 ApplyLate       == ws \in {"write", "closed"} /\ ws' = "error" /\ Keep5
-ReadFromLate    == ws \in {"write", "closed"} /\ ws' = "error" /\ Keep5
+\* ReadFrom after a write is refused and leaves the Writer in error; after Close it is refused too but, unlike
+\* Write after Close, leaves the Writer closed (writer.go: ReadFrom returns before installing the deferred state
+\* check) - found by binding the lifecycle state the code reports (verif accessor) to ws
+ReadFromLate    == \/ ws = "write" /\ ws' = "error" /\ Keep5
+                   \/ ws = "closed" /\ UNCHANGED wvars
 
 \* the sink reports a failure during a call that touches it: the Writer is in error from then on
 SinkFails ==
